@@ -56,6 +56,7 @@ pub struct Ctx {
     pub exhaustive: Option<bool>,
     pub replay: bool,
     pub current_file: Option<PathBuf>,
+    pub claims: Option<PathBuf>,
 }
 
 impl Ctx {
@@ -81,6 +82,15 @@ impl Ctx {
             exhaustive: None,
             replay: false,
             current_file: None,
+            claims: std::env::var("VERIF_CLAIMS").ok().map(PathBuf::from),
+        }
+    }
+    /// Dynamic load balancing between shards: true if this shard gets work item `k`
+    /// (first shard to create the claim file wins). Without a claims directory: round robin.
+    pub fn claim(&self, k: u64) -> bool {
+        match &self.claims {
+            Some(d) => std::fs::OpenOptions::new().write(true).create_new(true).open(d.join(k.to_string())).is_ok(),
+            None => k % self.shards as u64 == self.shard as u64,
         }
     }
     /// seed for this shard
@@ -180,6 +190,8 @@ pub fn run_parent(info: &PropInfo, tier: Tier, seed: u64) -> i32 {
     let tmp = crate::util::scratch_base().join(format!("txtpp-verif.{}.parent", std::process::id()));
     let _ = std::fs::remove_dir_all(&tmp);
     std::fs::create_dir_all(&tmp).expect("parent scratch");
+    let claims = tmp.join("claims");
+    std::fs::create_dir_all(&claims).expect("claims dir");
     let mut children = vec![];
     for i in 0..shards {
         let out = tmp.join(format!("shard{i}.json"));
@@ -187,6 +199,7 @@ pub fn run_parent(info: &PropInfo, tier: Tier, seed: u64) -> i32 {
             .args(["shard", info.id, tier.name(), &seed.to_string(), &i.to_string(), &shards.to_string()])
             .arg(&out)
             .env("RUST_BACKTRACE", "0")
+            .env("VERIF_CLAIMS", &claims)
             .env_remove("TXTPP_FILE")
             .spawn()
             .expect("spawn shard");
